@@ -211,7 +211,7 @@ pub fn check_c05_like(case: &CliCase, cx: &mut CaseCtx, check_rejects_content: b
                     }
                     let names_ok = [&v[0].old_name, &v[0].new_name].iter().any(|n| n.as_ref().map_or(false, |n| {
                         // names are paths: "a//b" and "a/./b" spell "a/b"
-                        let n = ws::norm_rel(&String::from_utf8_lossy(n));
+                        let n = ws::norm_rel(&ws::name_str(n));
                         n == op.target || n == op.new_path || n == op.old_path
                     }));
                     if !names_ok {
